@@ -212,6 +212,11 @@ impl Prop for C08 {
                 let mut down: Vec<u16> = vec![];
                 for _ in 0..r.range(1, 6) {
                     ops.push(Op::Gap(r.range(0, 6) as u32));
+                    if !down.is_empty() && r.chance(300) {
+                        // the OS auto-repeats a held key while the macro runs
+                        ops.push(Op::Repeat(*r.pick(&down)));
+                        ops.push(Op::Gap(r.range(0, 3) as u32));
+                    }
                     let can: Vec<u16> = [b, c].iter().copied().filter(|k| !down.contains(k)).collect();
                     if !can.is_empty() && (down.is_empty() || r.chance(500)) {
                         let k = *r.pick(&can);
